@@ -39,10 +39,33 @@
 (* NOT selected (strict <); Covariant and FixedPoint (above).  Emit hands  *)
 (* the exact expectations to the harness.                                  *)
 (*                                                                         *)
+(* Non-finite values.  A peak list may hold entries that are not numbers   *)
+(* (a column file with invalid geometry rows): list entries above          *)
+(* Len(POOL) stand for a peak whose g-vector has a NaN / +inf / -inf       *)
+(* component (KINDS; the component rotates with the position, the other    *)
+(* components are those of a pool peak), and one element of UBI itself may *)
+(* be NaN / +-inf (ub, UBADS).  "Within the tolerance" is `error < tol`:   *)
+(* an error that is not a number is below nothing, so such a peak is never *)
+(* selected, whatever its kind, and with a non-finite UBI element no peak  *)
+(* is (every UBI.g then has a non-finite component).  Law SubList: count,  *)
+(* sum of squares, X and H of the loop are those of the list with the      *)
+(* non-finite entries deleted (a fold over the finite sub-list, written    *)
+(* independently of Iter); with ub # "none" they are zero and the matrix   *)
+(* stays as it is.  For refine_assigned the selection is the label: the    *)
+(* emitted label pattern gives non-finite peaks the other label (they must *)
+(* not touch the fit); nlb counts the non-finite peaks of the raw pattern  *)
+(* (a second call that labels them too is only asked for its count: the    *)
+(* definition's sums are not numbers then).                                *)
+(*                                                                         *)
 (* cfgs: _q / _t enumerate every peak list of POOL_std at S = 0;           *)
 (*       _sq / _st enumerate the scale family SCALES_q / SCALES_t (cell    *)
 (*       edges 1 A .. 4096 A, long-axis and plate-like cells, g in units   *)
-(*       2^+-33 and 2^+-100 away) over the shorter pool POOL_s.            *)
+(*       2^+-33 and 2^+-100 away) over the shorter pool POOL_s;            *)
+(*       _nq / _nt enumerate every list over POOL_n and NBAD non-finite    *)
+(*       kinds (MAXPK = 4: three independent finite peaks and a bad one    *)
+(*       give regular normal equations) and the non-finite UBI elements.   *)
+(*       Re-entrancy of the kernels (calls from several Python threads):   *)
+(*       ScoreRefineCalls.tla.                                             *)
 (***************************************************************************)
 EXTENDS ExactLA, Json
 
@@ -52,7 +75,9 @@ CONSTANTS MS,        \* set of unimodular integer matrices M
           POOL,      \* sequence of << <<h,k,l>>, <<d1,d2,d3>> >>
           MAXPK,     \* longest peak list
           SCALES,    \* set of <<s1,s2,s3>> (integers of either sign): UBI = diag(2^s1,2^s2,2^s3).D.M
-          LABS       \* label patterns for refine_assigned: subset of {"all","odd","sel","none"}
+          LABS,      \* label patterns for refine_assigned: subset of {"all","odd","sel","none"}
+          NBAD,      \* number of non-finite peak kinds in the alphabet of the lists (first NBAD of KINDS; 0: finite lists only)
+          UBADS      \* kinds of a non-finite UBI element: subset of {"none","nan","pinf","ninf"}
 
 \* ---- constant sets used by the .cfg files (cfg syntax has no tuples: `MS <- MS_q`) -----------
 MS_q == { I3, << <<1,1,0>>, <<0,1,0>>, <<0,-1,1>> >> }
@@ -77,6 +102,15 @@ SCALES_q == { <<-1,-1,-1>>, <<2,2,2>>, <<5,5,5>>, <<7,7,7>>, <<9,9,9>>,        \
 SCALES_t == SCALES_q \cup { <<0,0,0>>, <<1,1,1>>, <<3,3,3>>, <<4,4,4>>, <<6,6,6>>, <<8,8,8>>, <<11,11,11>>,
                             <<-4,-4,-4>>, <<7,0,7>>, <<-1,9,4>>, <<10,5,0>>, <<3,12,3>>,
                             <<-33,-33,-25>>, <<33,40,33>>, <<-300,-300,-300>>, <<300,300,300>> }
+\* non-finite runs: on-lattice, 1/64 off, 1/8 off, generic (any three of them are independent)
+POOL_n == << << <<1,0,0>>, <<0,0,0>> >>,   << <<0,1,0>>, <<1,0,0>> >>,    << <<0,0,1>>, <<0,-8,0>> >>,
+             << <<1,2,3>>, <<-1,1,-1>> >> >>
+\* one component NaN / +inf / -inf, all three NaN, +inf in one component and -inf in the next
+KINDS == << "nan", "pinf", "ninf", "nanall", "mix" >>
+UBADS_none == {"none"}
+UBADS_all == {"none", "nan", "pinf", "ninf"}
+LABS_n == {"odd"}
+LABS_nt == {"odd", "all"}
 LABS_q == {"all", "odd"}
 LABS_s == {"all"}
 LABS_st == {"all", "sel"}
@@ -85,20 +119,33 @@ DS_s == { <<2,4,8>> }
 LABS_t == {"all", "odd", "sel", "none"}
 ASSUME \A m \in MS_t : Det(m) \in {1, -1}
 
-VARIABLES M, D, S, tol, lab, pk, k, n, ss, R, H, X, nl, ssl, Rl, Hl, Xl, pc
-vars == <<M, D, S, tol, lab, pk, k, n, ss, R, H, X, nl, ssl, Rl, Hl, Xl, pc>>
+ASSUME NBAD \in 0..Len(KINDS) /\ UBADS \subseteq UBADS_all
 
-Lists == UNION {[1..m -> 1..Len(POOL)] : m \in 0..MAXPK}
+VARIABLES M, D, S, tol, lab, ub, pk, k, n, ss, R, H, X, nl, ssl, Rl, Hl, Xl, pc
+vars == <<M, D, S, tol, lab, ub, pk, k, n, ss, R, H, X, nl, ssl, Rl, Hl, Xl, pc>>
 
-Init == /\ M \in MS /\ D \in DS /\ S \in SCALES /\ tol \in TOLS /\ lab \in LABS
+\* a list entry e <= Len(POOL) is the pool peak e; e = Len(POOL) + q is a peak of the non-finite kind KINDS[q]
+Lists == UNION {[1..m -> 1..(Len(POOL) + NBAD)] : m \in 0..MAXPK}
+
+Init == /\ M \in MS /\ D \in DS /\ S \in SCALES /\ tol \in TOLS /\ lab \in LABS /\ ub \in UBADS
         /\ pk \in Lists
+        \* with a non-finite UBI element nothing is ever selected: finite lists one shorter are enough
+        /\ ub # "none" => (Len(pk) < MAXPK /\ \A i \in 1..Len(pk) : pk[i] <= Len(POOL))
         /\ k = 1 /\ n = 0 /\ ss = 0 /\ R = Z3 /\ H = Z3 /\ X = Z3
         /\ nl = 0 /\ ssl = 0 /\ Rl = Z3 /\ Hl = Z3 /\ Xl = Z3 /\ pc = "loop"
 
-Hk(i) == POOL[pk[i]][1]
-Dk(i) == POOL[pk[i]][2]
-SumSq(i) == Norm2(Dk(i))                         \* 4096 * drlv2
-Selected(i) == SumSq(i) < tol * tol              \* strict, as `sumsq < tolsq`
+Finite(i) == pk[i] <= Len(POOL)
+Kind(i) == IF Finite(i) THEN "" ELSE KINDS[pk[i] - Len(POOL)]
+Comp(i) == ((i + pk[i]) % 3) + 1                 \* the component that is not a number
+\* the finite components of a non-finite peak are those of the pool peak of its position
+Base(i) == IF Finite(i) THEN pk[i] ELSE ((i - 1) % Len(POOL)) + 1
+Hk(i) == POOL[Base(i)][1]
+Dk(i) == POOL[Base(i)][2]
+SumSq(i) == Norm2(Dk(i))                         \* 4096 * drlv2   (of a finite peak)
+\* strict, as `sumsq < tolsq`; an error that is not a number is not below the tolerance
+Selected(i) == Finite(i) /\ ub = "none" /\ SumSq(i) < tol * tol
+\* which element of UBI is not a number (row, column), when ub # "none"
+UbAt == << (Len(pk) % 3) + 1, (IF Len(pk) > 0 THEN pk[1] % 3 ELSE 0) + 1 >>
 \* x = 64 UBI.g = 64 h + d : the same at every scale
 Xk(i) == VAdd(VScale(64, Hk(i)), Dk(i))
 \* 512 * g = M^-1 . diag(8/D) . (64 h + d)     (M^-1 = Adj(M)/Det(M), Det(M) = +-1)     [at S = 0]
@@ -107,8 +154,9 @@ G512(i) == LET x == Xk(i)
            IN VScale(Det(M), MV(Adj(M), y))
 \* 512/64 * UB = M^-1 . diag(8/D)  as an integer matrix: G512(i) = UB512 . Xk(i)
 UB512 == M2T(MScale(Det(M), MM(Adj(M), Diag(8 \div D[1], 8 \div D[2], 8 \div D[3]))))
-Labelled(i) == CASE lab = "all" -> TRUE [] lab = "odd" -> i % 2 = 1
+RawLabelled(i) == CASE lab = "all" -> TRUE [] lab = "odd" -> i % 2 = 1
                  [] lab = "sel" -> Selected(i) [] lab = "none" -> FALSE
+Labelled(i) == RawLabelled(i) /\ Finite(i)       \* non-finite peaks carry the other label in the judged call
 
 \* one iteration of `for (k = 0; k < ng; k++)` of score_and_refine AND of refine_assigned
 Iter == /\ pc = "loop" /\ k <= Len(pk)
@@ -124,7 +172,7 @@ Iter == /\ pc = "loop" /\ k <= Len(pk)
                 /\ Hl' = M2T(MAdd(Hl, Outer(Hk(k), Hk(k))))
                 /\ Xl' = M2T(MAdd(Xl, Outer(Xk(k), Hk(k))))
            ELSE UNCHANGED <<nl, ssl, Rl, Hl, Xl>>
-        /\ k' = k + 1 /\ UNCHANGED <<M, D, S, tol, lab, pk, pc>>
+        /\ k' = k + 1 /\ UNCHANGED <<M, D, S, tol, lab, ub, pk, pc>>
 
 \* k = inverse3x3(H): singular -> ubi unchanged, else UB = R H^-1 (the harness finishes the division)
 \* 32-bit guard: with |hkl| ~ 100 the determinant does not fit TLC's integers; then the harness forms it
@@ -133,7 +181,7 @@ BIG == 2147483647
 DetOrBig(Q) == IF Big(Q) THEN BIG ELSE Det(Q)
 Solve == /\ pc = "loop" /\ k = Len(pk) + 1
          /\ pc' = IF Big(H) THEN "big" ELSE IF Det(H) = 0 THEN "unchanged" ELSE "refined"
-         /\ UNCHANGED <<M, D, S, tol, lab, pk, k, n, ss, R, H, X, nl, ssl, Rl, Hl, Xl>>
+         /\ UNCHANGED <<M, D, S, tol, lab, ub, pk, k, n, ss, R, H, X, nl, ssl, Rl, Hl, Xl>>
 
 Next == Iter \/ Solve
 Spec == Init /\ [][Next]_vars
@@ -159,9 +207,24 @@ Covariant == R = M2T(MM(UB512, X)) /\ Rl = M2T(MM(UB512, Xl))
 FixedPoint == /\ (\A i \in 1..(k-1) : Selected(i) => Dk(i) = <<0,0,0>>) => X = M2T(MScale(64, H))
               /\ (\A i \in 1..(k-1) : Labelled(i) => Dk(i) = <<0,0,0>>) => Xl = M2T(MScale(64, Hl))
 
+\* non-finite entries are ignored: the loop's sums are those of the finite sub-list (positions Fin, in order),
+\* folded here without reference to Iter; a non-finite UBI element selects nothing and leaves the matrix alone
+Fin == SelectSeq([i \in 1..Len(pk) |-> i], LAMBDA i : Finite(i))
+FoldFin[j \in 0..Len(Fin)] ==
+   IF j = 0 THEN <<0, 0, Z3, Z3>>
+   ELSE LET i == Fin[j]
+            p == FoldFin[j - 1]
+        IN IF SumSq(i) < tol * tol
+           THEN << p[1] + 1, p[2] + SumSq(i), M2T(MAdd(p[3], Outer(Xk(i), Hk(i)))), M2T(MAdd(p[4], Outer(Hk(i), Hk(i)))) >>
+           ELSE p
+SubList == Done => IF ub = "none" THEN <<n, ss, X, H>> = FoldFin[Len(Fin)]
+                   ELSE <<n, ss, X, H>> = <<0, 0, Z3, Z3>> /\ pc = "unchanged"
+Nlb == Cardinality({i \in 1..Len(pk) : RawLabelled(i) /\ ~Finite(i)})
+
 Emit == Done =>
-   PrintT("@@" \o ToJson([M |-> M, D |-> D, S |-> S, tol |-> tol, lab |-> lab,
+   PrintT("@@" \o ToJson([M |-> M, D |-> D, S |-> S, tol |-> tol, lab |-> lab, ub |-> ub, ubat |-> UbAt, nlb |-> Nlb,
           peaks |-> [i \in 1..Len(pk) |-> [h |-> Hk(i), d |-> Dk(i), g512 |-> G512(i),
+                                          bad |-> Kind(i), comp |-> Comp(i),
                                           sel |-> IF Selected(i) THEN 1 ELSE 0,
                                           lab |-> IF Labelled(i) THEN 1 ELSE 0]],
           n |-> n, ss |-> ss, R |-> R, H |-> H, X |-> X, detH |-> DetOrBig(H),
